@@ -372,7 +372,42 @@ func genC09(r *lib.Rand, tier string) History {
 		clashA.sym = op.Sym
 		h.Steps = append(h.Steps, op)
 	}
+	// a fifth of the histories: the victim owns the symbol p++s, the attacker (actor i) issues s and hands it to the
+	// DERIVED address actor_i++p (a legal 21..23-byte address that never signs): the owner-index keys of
+	// (actor_i++p, s) and (actor_i, p++s) are the same bytes; then actor i tries to govern the victim's token
+	var ovLong Name
+	ovAtt := -1
+	if r.Chance(1, 5) {
+		att := r.Intn(g.n)
+		vic := g.other(att)
+		plen := 1 + r.Intn(3)
+		base := Name{r.Intn(6), 3 + r.Intn(4)}
+		for g.usedS[base] {
+			base = Name{r.Intn(6), 3 + r.Intn(6)}
+		}
+		long := Name{500 + 100*plen + base.Id, base.Len + plen}
+		opL := g.issue(vic)
+		opL.Sym = long
+		g.toks[len(g.toks)-1].sym = long
+		opS := g.issue(att)
+		opS.Sym = base
+		g.usedS[base] = true
+		g.toks = g.toks[:len(g.toks)-1] // handed over right away: nobody signs for it any more
+		h.Steps = append(h.Steps, opL, opS, Op{K: "transfer", A: att, B: 300 + 10*att + plen, Sym: base})
+		ovLong, ovAtt = long, att
+	}
 	for len(h.Steps) < n {
+		if ovAtt >= 0 && r.Chance(1, 7) {
+			switch r.Intn(3) {
+			case 0:
+				h.Steps = append(h.Steps, Op{K: "edit", A: ovAtt, Sym: ovLong, Nm: pick(r, 0, 2), Max: "0", Mintable: pick(r, 0, 1, 2)})
+			case 1:
+				h.Steps = append(h.Steps, Op{K: "transfer", A: ovAtt, B: g.other(ovAtt), Sym: ovLong})
+			default:
+				h.Steps = append(h.Steps, Op{K: "edit", A: ovAtt, Sym: ovLong, Nm: 3, Max: maxU64.String(), Mintable: 0})
+			}
+			continue
+		}
 		if clashB != nil && r.Chance(1, 8) {
 			// cross-token attempts through the shared string: A's owner on B's coins, B's owner on A's record
 			x := pick(r, "1", "1000", new(big.Int).Set(pow10(clashB.scale)).String())
@@ -429,6 +464,20 @@ func genC09(r *lib.Rand, tier string) History {
 		default:
 			h.Steps = append(h.Steps, g.setparams())
 		}
+	}
+	if ovAtt >= 0 {
+		// keep the attacker from ever OWNING p++s himself (by a transfer to him or a colliding issue): the code's
+		// index entries of (actor_i++p, s) and (actor_i, p++s) would then be one and the same key and overwrite each
+		// other — a quirk of the unchanged code's owner index that the model (exact pairs) does not reproduce and
+		// that no C09 clause is about
+		kept := h.Steps[:0]
+		for _, op := range h.Steps {
+			if op.Sym == ovLong && ((op.K == "transfer" && op.B == ovAtt) || (op.K == "issue" && op.A == ovAtt)) {
+				continue
+			}
+			kept = append(kept, op)
+		}
+		h.Steps = kept
 	}
 	return h
 }
